@@ -48,7 +48,9 @@ type auA struct {
 	RA        bool    `json:"ra"`
 	NonIDR    bool    `json:"nonidr"`
 	HasParams bool    `json:"hasparams,omitempty"`
-	Params    int64   `json:"params,omitempty"`
+	Params    int64   `json:"params,omitempty"` // id of the parameters (H264 / H265: of the SPS)
+	PPSx      int64   `json:"ppsx,omitempty"`   // H264 / H265: 1 + id of the PPS when it differs from Params (0: same id)
+	VPSx      int64   `json:"vpsx,omitempty"`   // H265: 1 + id of the VPS when it differs from Params
 	RpsArg    int     `json:"rpsarg,omitempty"`
 	Units     []unitA `json:"units"`
 }
@@ -60,6 +62,22 @@ type history struct {
 	PartMin  int64   `json:"partmin"`
 	Tracks   []tcfgA `json:"tracks"`
 	Ops      []auA   `json:"ops"`
+}
+
+// pset: which variant of each parameter set is in force (H264: S, P; H265: S, P, V; VP9 / AV1: S)
+type pset struct{ S, P, V int64 }
+
+func psetOfID(id int64) pset { return pset{id, id, id} }
+
+func (a *auA) pset() pset {
+	ps := psetOfID(a.Params)
+	if a.PPSx != 0 {
+		ps.P = a.PPSx - 1
+	}
+	if a.VPSx != 0 {
+		ps.V = a.VPSx - 1
+	}
+	return ps
 }
 
 func isVideoKind(k int) bool { return k >= kH264 && k <= kAV1 }
@@ -142,7 +160,7 @@ func concretize(h *history, a *auA) concrete {
 	case kH264:
 		var au [][]byte
 		if a.HasParams {
-			au = append(au, spsOf(a.Params), ppsOf(a.Params))
+			au = append(au, spsOf(a.pset().S), ppsOf(a.pset().P))
 		}
 		u := a.Units[0]
 		if a.RA {
@@ -156,7 +174,7 @@ func concretize(h *history, a *auA) concrete {
 	case kH265:
 		var au [][]byte
 		if a.HasParams {
-			au = append(au, h265VPSOf(a.Params), h265SPSOf(a.Params), h265PPSOf(a.Params))
+			au = append(au, h265VPSOf(a.pset().V), h265SPSOf(a.pset().S), h265PPSOf(a.pset().P))
 		}
 		u := a.Units[0]
 		au = append(au, h265Slice(h265SliceType(u.ID, a.RA), u.ID, u.Len, a.RpsArg))
@@ -204,12 +222,15 @@ func concretize(h *history, a *auA) concrete {
 	return c
 }
 
-func mkCodec(t tcfgA, params int64) codecs.Codec {
+func mkCodec(t tcfgA, params int64) codecs.Codec { return mkCodecP(t, psetOfID(params)) }
+
+func mkCodecP(t tcfgA, ps pset) codecs.Codec {
+	params := ps.S
 	switch t.Kind {
 	case kH264:
-		return &codecs.H264{SPS: spsOf(params), PPS: ppsOf(params)}
+		return &codecs.H264{SPS: spsOf(ps.S), PPS: ppsOf(ps.P)}
 	case kH265:
-		return &codecs.H265{VPS: h265VPSOf(params), SPS: h265SPSOf(params), PPS: h265PPSOf(params)}
+		return &codecs.H265{VPS: h265VPSOf(ps.V), SPS: h265SPSOf(ps.S), PPS: h265PPSOf(ps.P)}
 	case kVP9:
 		v := vp9ParamsOf(params)
 		return &codecs.VP9{Width: v.w, Height: v.h, Profile: v.profile, BitDepth: v.bitDepth,
